@@ -44,6 +44,7 @@ Join(q) == IF q = <<>> THEN "" ELSE IF Len(q) = 1 THEN q[1] ELSE q[1] \o " " \o 
 \* how one cell prints: ints as numbers; for the string-typed arrays the driver stores "" for 0 and "s<v>" otherwise
 Cell(ty, v) == CASE ty = "string" -> (IF v = 0 THEN "" ELSE "s" \o ToString(v))
                  [] ty = "float" -> (IF v = -1000 THEN "-0" ELSE ToString(v))          \* -1000 stands for negative zero
+                 [] ty = "ptr" -> (IF v = 0 THEN "<nil>" ELSE "&{" \o ToString(v) \o " " \o ToString(v + 1) \o "}")
                  [] ty = "slice" -> (IF v = 0 THEN "[]" ELSE "[" \o ToString(v) \o "]")   \* []int{v}, nil for 0
                  [] OTHER -> ToString(v)
 RowStr(ty, r) == "[" \o Join([i \in 1..Len(r) |-> Cell(ty, r[i])]) \o "]"
